@@ -12,6 +12,24 @@ COMMON_NOTE = ("Trusted: Lean 4.33 kernel (axioms propext/Classical.choice/Quot.
                "tools/translate.py, the correspondence harness + Lean driver and their generators. ")
 
 CLAIMED = {
+    "C01": dict(
+        engine="M3 Session",
+        technique="Lean 4 theorems: conservation lemmas for the two batch-assembly passes, an egress-buffer refinement (partial writes, priority "
+                  "chunks) and a wire-order invariant by induction over every event sequence of the session's send path; the same for the receive "
+                  "path; composed with the C03 round-trip for any segmentation; tie: translator re-extracts the guards of the assembly code "
+                  "(theorem `source_shape`), stack-level streaming scenarios on real sockets whose delivered sequence is compared with the "
+                  "model's prediction (digest of exactly the accepted sequence)",
+        text="Proof over the session model: for every configuration (SNDHWM, batch count, logical and physical byte limits) and every interleaving "
+             "of application sends, loop passes, partial writes and PING/PONG insertions, the data written or buffered followed by carry-over and "
+             "pipe is at all times exactly the framing of the accepted messages in acceptance order (no loss, duplicate or reordering); writes are "
+             "chunk-aligned and control frames land only on chunk boundaries; a pass always takes the oldest message; batches respect count and "
+             "byte ceilings; the session buffers at most SNDHWM messages plus one batch; on the receive side delivered ++ queued ++ buffered = "
+             "decoded for every schedule of reads, drains, stalled and cancelled sends; end to end (drained, any cuts) the receiver regroups "
+             "exactly the accepted messages. 17 theorems. Partial: the socket patterns' own queues (DEALER pending queue, load balancer, ROUTER "
+             "map), the inproc path and the io_uring backend are exercised by the streaming scenarios only, not modelled; liveness (everything "
+             "accepted is eventually written) is observed, not proved.",
+        note=COMMON_NOTE + "The model's events are atomic with respect to each other because the session actor is a single task; fibre channels are assumed FIFO.",
+        design="§8 C01"),
     "C03": dict(
         engine="M1 Wire",
         technique="Lean 4 theorems (round-trip, encoder agreement, cut-independence by induction over the chunk list) "
